@@ -133,6 +133,7 @@ pub trait DynTree: MaybeSync {
     fn roundtrip(&self) -> Result<Box<dyn DynTree>, String>;
     fn clone_box(&self) -> Box<dyn DynTree>;
     fn eq_dyn(&self, other: &dyn Any) -> bool;
+    fn ne_dyn(&self, other: &dyn Any) -> bool;
     /// `self.clone_from(other)` when `other` has the same type
     fn clone_from_dyn(&mut self, other: &dyn Any) -> bool;
     fn as_any(&self) -> &dyn Any;
@@ -322,6 +323,9 @@ macro_rules! impl_tree {
             }
             fn eq_dyn(&self, other: &dyn Any) -> bool {
                 other.downcast_ref::<Self>().map(|o| o == self).unwrap_or(false)
+            }
+            fn ne_dyn(&self, other: &dyn Any) -> bool {
+                other.downcast_ref::<Self>().map(|o| o != self).unwrap_or(true)
             }
             fn clone_from_dyn(&mut self, other: &dyn Any) -> bool {
                 match other.downcast_ref::<Self>() {
@@ -1161,6 +1165,22 @@ impl Interp {
     fn q(&self, k: usize, op: &str, args: &[&str]) -> String {
         let nums: Vec<u128> = args.iter().map(|x| x.parse::<u128>().unwrap_or(0)).collect();
         let g = |i: usize| -> usize { nums.get(i).copied().unwrap_or(0) as usize };
+        if op == "debug" {
+            // `Debug::fmt` is a safe public method too: it must not panic; its text is not compared
+            let txt = match &self.slots[k] {
+                Slot::Qv(x, _) => format!("{:?}", x),
+                Slot::Rsq256(x, _) => format!("{:?}", x),
+                Slot::Rsq512(x, _) => format!("{:?}", x),
+                Slot::Bv(x, _) => format!("{:?}", x),
+                Slot::Bvm(x, _) => format!("{:?}", x),
+                Slot::Rsn(x, _) => format!("{:?}", x),
+                Slot::Rsw(x, _) => format!("{:?}", x),
+                Slot::Da0(x, _) => format!("{:?}", x),
+                Slot::Da1(x, _) => format!("{:?}", x),
+                _ => return "bad-op".into(),
+            };
+            return if txt.is_empty() { "V:0".into() } else { "U".into() };
+        }
         match &self.slots[k] {
             Slot::Err => "E".into(),
             Slot::Empty => "bad-slot".into(),
@@ -1267,20 +1287,37 @@ impl Interp {
     }
 
     pub fn eq_slots(&self, a: usize, b: usize) -> String {
-        let r = match (&self.slots[a], &self.slots[b]) {
-            (Slot::Qv(x, _), Slot::Qv(y, _)) => x == y,
-            (Slot::Bv(x, _), Slot::Bv(y, _)) => x == y,
-            (Slot::Bvm(x, _), Slot::Bvm(y, _)) => x == y,
-            (Slot::Rsq256(x, _), Slot::Rsq256(y, _)) => x == y,
-            (Slot::Rsq512(x, _), Slot::Rsq512(y, _)) => x == y,
-            (Slot::Rsn(x, _), Slot::Rsn(y, _)) => x == y,
-            (Slot::Rsw(x, _), Slot::Rsw(y, _)) => x == y,
-            (Slot::Da0(x, _), Slot::Da0(y, _)) => x == y,
-            (Slot::Da1(x, _), Slot::Da1(y, _)) => x == y,
-            (Slot::Tree(x, _), Slot::Tree(y, _)) => x.eq_dyn(y.as_any()),
-            _ => false,
-        };
-        o_val(r as usize)
+        // `==` in both directions and `!=` (PartialEq::ne can be overridden): all three must tell the same story
+        macro_rules! three {
+            ($x:expr, $y:expr) => {{
+                let (e1, e2, n1) = ($x == $y, $y == $x, $x != $y);
+                if e1 == e2 && e1 != n1 {
+                    o_val(e1 as usize)
+                } else {
+                    format!("V:inconsistent(eq={},sym={},ne={})", e1, e2, n1)
+                }
+            }};
+        }
+        match (&self.slots[a], &self.slots[b]) {
+            (Slot::Qv(x, _), Slot::Qv(y, _)) => three!(x, y),
+            (Slot::Bv(x, _), Slot::Bv(y, _)) => three!(x, y),
+            (Slot::Bvm(x, _), Slot::Bvm(y, _)) => three!(x, y),
+            (Slot::Rsq256(x, _), Slot::Rsq256(y, _)) => three!(x, y),
+            (Slot::Rsq512(x, _), Slot::Rsq512(y, _)) => three!(x, y),
+            (Slot::Rsn(x, _), Slot::Rsn(y, _)) => three!(x, y),
+            (Slot::Rsw(x, _), Slot::Rsw(y, _)) => three!(x, y),
+            (Slot::Da0(x, _), Slot::Da0(y, _)) => three!(x, y),
+            (Slot::Da1(x, _), Slot::Da1(y, _)) => three!(x, y),
+            (Slot::Tree(x, _), Slot::Tree(y, _)) => {
+                let (e1, e2, n1) = (x.eq_dyn(y.as_any()), y.eq_dyn(x.as_any()), x.ne_dyn(y.as_any()));
+                if e1 == e2 && e1 != n1 {
+                    o_val(e1 as usize)
+                } else {
+                    format!("V:inconsistent(eq={},sym={},ne={})", e1, e2, n1)
+                }
+            }
+            _ => o_val(0),
+        }
     }
 
     fn dump(&self, k: usize) -> String {
